@@ -182,7 +182,12 @@ class Ellipsis(Expression):
             parent = self.parent
             while parent is not None and not isinstance(parent, Brackets):
                 parent = parent.parent
-            n = "[" + n + "]" if parent is not None else "{" + n + "}"
+            if n == "...":
+                pass  # "......": an ellipsis over the anonymous ellipsis is written without a separator
+            elif parent is not None:
+                n = "[" + n + "]"
+            elif isinstance(self.inner, List):
+                n = "{" + n + "}"
         return f"{n}..."
 
     def __deepcopy__(self):
